@@ -94,7 +94,10 @@ def handle (op : Json) : R Json := do
       pure (compact child diags)
     return obj [("r", jarr Json.str rs)]
   | "sw" | "msg" =>
-    let m ← str op "m"
+    let m0 ← str op "m"
+    -- the println-style methods of zapgrpc hand `Sprintln(args)` minus its newline to the SugaredLogger: same entries as Xln
+    let m := match m0 with
+      | "grpc.Infoln" => "Infoln" | "grpc.Warningln" => "Warnln" | "grpc.Errorln" => "Errorln" | x => x
     let c : Cfg := ⟨intD op "min" (-1), boolD op "dev" false⟩
     let ctx := ctxFields (natD op "ctx" 0)
     let args ← (arrD op "args").toList.mapM parseArg
